@@ -131,7 +131,7 @@ def run_property(pid, spec, tier, seed, t0):
             if "runner" in c:
                 C.RUNNERS[kind] = c["runner"]
             n = c["quick"] if quick else c["thorough"]
-            env = c.get("env")
+            env = dict(c.get("env") or {}, VERIF_PROP=pid)   # the harness names a recorded finding only in its own property's run
             # a second entry of the same kind (another environment) carries a label and its own seed offset
             label = c.get("label", kind)
             r = C.run_corpus(pid, kind, compare_model=model_ok) if label == kind else C.CorrResult()
@@ -193,7 +193,7 @@ def run_property(pid, spec, tier, seed, t0):
     if broken and not new_fails and harness_ok:
         for c in spec.get("corr", []):
             n = (c["quick"] if quick else c["thorough"]) * spec.get("search_factor", 3)
-            r = C.run_corr(c["kind"], seed + 7919, n, compare_model=False, extra_env=c.get("search_env", c.get("env")))
+            r = C.run_corr(c["kind"], seed + 7919, n, compare_model=False, extra_env=dict(c.get("search_env", c.get("env")) or {}, VERIF_PROP=pid))
             searched += r.evaluations
             for f in r.oracle_fail:
                 if not C.match_known(pid, f):
